@@ -41,9 +41,10 @@ def build_script(ulines, oplines, meta, discipline, rng):
             out += [(x, 'obs') for x in observation(meta)]
         elif discipline == 'some':
             obs = observation(meta)
-            for x in rng.sample(obs, min(len(obs), rng.randint(0, 12))):
+            for x in rng.sample(obs, min(len(obs), rng.randint(0, 60))):
                 out.append((x, 'obs'))
     out += [(x, 'obs') for x in observation(meta)]
+    out.append(('counters', 'obs'))
     return out
 
 
@@ -60,6 +61,8 @@ def same(cmd, m, i):
         return abs(a - b) <= REL * max(abs(a), abs(b))
     if m.startswith('exn Internal') and i.startswith('exn Internal'):
         return True
+    if m.startswith('counters') and i.startswith('counters'):
+        return True
     return False
 
 
@@ -75,6 +78,8 @@ class Result:
         self.inexact_vals = 0
         self.op_hist = {}
         self.exn_hist = {}
+        self.msg_hist = {}
+        self.nontrivial = set()
 
 
 def run_histories(exe, histories, pens, impl_factory, res=None, stop_at_first=True):
@@ -105,6 +110,12 @@ def run_histories(exe, histories, pens, impl_factory, res=None, stop_at_first=Tr
                 res.op_hist[c] = res.op_hist.get(c, 0) + 1
                 if i.startswith('exn'):
                     res.exn_hist[i[4:]] = res.exn_hist.get(i[4:], 0) + 1
+            if m.startswith('counters'):
+                for kv in m.split()[1:]:
+                    k_, v_ = kv.split('=')
+                    res.msg_hist[k_] = res.msg_hist.get(k_, 0) + int(v_)
+                    if k_ in ('AttrsValueChanged', 'EffectApplied') and int(v_) > 0:
+                        res.nontrivial.add(hi)
             if m.startswith('val ') and i.startswith('val '):
                 if m == i:
                     res.exact_vals += 1
